@@ -65,6 +65,50 @@ def plain_release(pid, tier, seed):
     return res
 
 
+def target_feature_builds(pid, tier, seed):
+    """Code behind cfg(target_feature = "..") exists only in builds that enable the feature. For every CPU feature the
+    crate's current sources name and this host's CPU has, the property's workload (every 8th case) runs against a
+    build with -C target-feature=+<feature>. Nothing to do on a tree that names none."""
+    feats = []
+    srcdir = os.path.join(REPO, "src")
+    for fn in sorted(os.listdir(srcdir)):
+        if fn.endswith(".rs"):
+            text = open(os.path.join(srcdir, fn), errors="replace").read()
+            for f in re.findall(r'target_feature\s*=\s*"([a-z0-9_.\-]+)"', text):
+                if f not in feats:
+                    feats.append(f)
+    res = {"violations": [], "inconclusive": [], "counters": {}, "samples": [], "evaluations": 0, "digests": set(), "maxes": {},
+           "coverage": {"target_features_named_in_sources": feats, "builds": []}}
+    if not feats:
+        return res
+    try:
+        flags = set(open("/proc/cpuinfo").read().split("flags")[1].split("\n")[0].replace(":", " ").split())
+    except Exception:
+        flags = set()
+    for f in feats:
+        cpu_name = f.replace(".", "_")
+        if cpu_name not in flags and f not in flags:
+            res["coverage"]["builds"].append({"feature": f, "run": "not executable on this host's CPU"})
+            continue
+        binp = cargo_build("tf-" + cpu_name, FLAGS_CHECKED + f" -C target-feature=+{f}")
+        if binp is None:
+            res["inconclusive"].append(f"build with -C target-feature=+{f} failed")
+            continue
+        reports, problems = run_shards(binp, pid, tier, seed, tag="tf-" + cpu_name, extra_args=["--cases-div", "8"])
+        m = merge_reports(reports)
+        for v in m["violations"]:
+            v = dict(v)
+            v["phase"] = "target_feature_builds"
+            v["detail"] = f"[crate built with -C target-feature=+{f}] " + v.get("detail", "")
+            v["sig"] = f"target-feature[{f}]:" + v["sig"]
+            res["violations"].append(v)
+        res["inconclusive"].extend(m["inconclusive"] + [p["why"] for p in problems])
+        res["evaluations"] += m["evaluations"]
+        res["digests"] |= m["digests"]
+        res["coverage"]["builds"].append({"feature": f, "run": f"every 8th case of the {tier} tier", "evaluations": m["evaluations"]})
+    return res
+
+
 # --------------------------------------------------------------------------- C06
 def declared_features():
     feats = []
@@ -333,8 +377,45 @@ def miri_run(pid, target_key, seed, nshards, timeout_s, extra=None, rustflags="-
     return reports, problems
 
 
+# Miri targets (little- and big-endian where both exist) for the architectures a `cfg(target_arch = "..")` in the
+# crate's current sources can name: code behind such a cfg exists on no other target
+ARCH_TARGETS = {
+    "x86": ["i686-unknown-linux-gnu"],
+    "aarch64": ["aarch64-unknown-linux-gnu", "aarch64_be-unknown-linux-gnu"],
+    "arm": ["armv7-unknown-linux-gnueabihf", "armeb-unknown-linux-gnueabi"],
+    "mips": ["mips-unknown-linux-gnu", "mipsel-unknown-linux-gnu"],
+    "mips64": ["mips64-unknown-linux-gnuabi64", "mips64el-unknown-linux-gnuabi64"],
+    "powerpc": ["powerpc-unknown-linux-gnu"],
+    "powerpc64": ["powerpc64-unknown-linux-gnu", "powerpc64le-unknown-linux-gnu"],
+    "riscv32": ["riscv32gc-unknown-linux-gnu"],
+    "riscv64": ["riscv64gc-unknown-linux-gnu"],
+    "s390x": ["s390x-unknown-linux-gnu"],
+    "sparc64": ["sparc64-unknown-linux-gnu"],
+    "loongarch64": ["loongarch64-unknown-linux-gnu"],
+}
+
+
+def arch_targets():
+    """Miri target keys for every target_arch the crate's sources mention (none on the pinned tree)."""
+    keys = []
+    srcdir = os.path.join(REPO, "src")
+    for fn in sorted(os.listdir(srcdir)):
+        if not fn.endswith(".rs"):
+            continue
+        text = open(os.path.join(srcdir, fn), errors="replace").read()
+        for arch in re.findall(r'target_arch\s*=\s*"([a-z0-9_]+)"', text):
+            for triple in ARCH_TARGETS.get(arch, []):
+                if triple not in MIRI_TARGETS.values():
+                    MIRI_TARGETS[triple] = triple
+                key = [k for k, v in MIRI_TARGETS.items() if v == triple][0]
+                if key not in keys:
+                    keys.append(key)
+    return keys
+
+
 def _miri_phase(pid, seed, targets, nshards=16, timeout_s=3000, variants=(("checked", "--cfg elf_verif_hooks", "miri"),)):
     res = {"violations": [], "inconclusive": [], "counters": {}, "maxes": {}, "samples": [], "evaluations": 0, "digests": set(), "coverage": {"targets": []}}
+    targets = list(targets) + [t for t in arch_targets() if t not in targets]
     if not miri_setup(targets):
         res["inconclusive"].append("miri sysroot setup failed")
         return res
